@@ -319,8 +319,27 @@ static void mode_perm_big(void) {
   }
 }
 
+/* every tail length of the column-gather kernel (its 64-way fall-through switch is entered at "columns in the last block - 1"):
+   permutation lengths 1..63 and 65..128 on matrices of exactly that many (and more) columns */
+static void mode_perm_tail(void) {
+  for (int L = 1; L <= 128; L++) { if (L == 64) continue;
+    int *P = vx_malloc(sizeof(int) * (size_t)L); char pd[64];
+    for (int extra = 0; extra < 2; extra++) { int n = L + (extra ? 37 : 0), rows = 9;
+      #define TB(pdsc) do { perm_case(P, L, n, rows, pdsc, -1); perm_case(P, L, rows, n, pdsc, -1); } while (0)
+      for (int i = 0; i < L; i++) P[i] = i;
+      if (L > 1) { P[0] = L - 1; TB("swap(0,last)"); P[0] = 0; }
+      if (L > 66) { P[63] = L - 1; TB("swap(63,last)"); P[63] = 63; P[64] = L - 1; TB("swap(64,last)"); P[64] = 64; }
+      for (int i = 0; i < L; i++) P[i] = (L - 1 - i) > i ? L - 1 - i : i; TB("reversal");
+      { uint64_t st = 0x7777 + (uint64_t)L; for (int i = 0; i < L; i++) P[i] = i + (int)(vx_rand(&st) % (uint64_t)(L - i)); TB("random"); }
+      if (!vx_tier && extra == 0 && (L % 3)) break;
+    }
+    vx_free(P);
+  }
+}
+
 void prop_enumerate(void) {
   const char *mode = vx_arg("mode", "colswap");
+  if (!strcmp(mode, "perm_tail")) { mode_perm_tail(); return; }
   if (!strcmp(mode, "colswap")) mode_colswap();
   else if (!strcmp(mode, "rows")) mode_rows();
   else if (!strcmp(mode, "bits")) mode_bits();
